@@ -472,7 +472,7 @@ def _check_duplicates(ctx, idx, reqs, pending):
     if st == 'err':
         ctx.note(f'image with repeated positions could not be opened: {im}')
         return
-    requests = [(None, None, None, None, False)] + random_requests(r, R, C, th, tw, 3)
+    requests = [(None, None, None, None, False)] + [q for q in random_requests(r, R, C, th, tw, 3) if modelable(q)]
     impls = []
     for req in requests:
         rs, re, cs, ce, ai = req
@@ -522,10 +522,12 @@ def _seg_config(ctx, idx):
     style = 'labelmap' if typ == 'LABELMAP' else r.choice(['labelmap', 'stack'])
     p_empty = r.choice([0.0, 0.3, 0.6, 0.9])
     all_empty = r.random() < 0.04
+    if org == 'TILED_FULL' and omit_empty and r.random() < 0.5:
+        all_empty = True        # the one situation in which TILED_FULL with omit_empty_frames is accepted
     return dict(idx=idx, R=R, C=C, type=typ, src_tile=[sth, stw], tile=list(tile) if tile else None, th=th, tw=tw, org=org,
                 omit_empty=omit_empty, nseg=nseg, style=style, p_empty=p_empty, all_empty=all_empty,
                 src_full=r.random() < 0.5, roundtrip=r.random() < 0.3,
-                layout=r.choice(LAYOUTS), org_spelling=r.choice(['str', 'enum']), tile_spelling=r.choice(['tuple', 'list', 'np.int64']),
+                layout=r.choice(LAYOUTS), org_spelling=r.choice(['str', 'enum']), tile_spelling=r.choice(['tuple', 'list', 'np.int64', 'np.uint8', 'np.uint16']),
                 segnum_spelling=r.choice(['list', 'tuple', 'ndarray']), int_spelling=r.choice(['int', 'int', 'np.int64', 'np.int32']),
                 entry=r.choice(['segread', 'Segmentation.from_dataset', 'segread-lazy']))
 
@@ -579,7 +581,7 @@ def _check_seg(ctx, cfg, reqs, pending):
     if cfg['tile'] is not None:
         sp = cfg.get('tile_spelling', 'tuple')
         kw['tile_size'] = tuple(cfg['tile']) if sp == 'tuple' else list(cfg['tile']) if sp == 'list' else \
-            (np.int64(cfg['tile'][0]), np.int64(cfg['tile'][1]))
+            tuple(getattr(np, sp[3:])(v) for v in cfg['tile'])
     st, seg = _fetch(hd.seg.Segmentation, [src], handed, cfg['type'], [seg_description(s) for s in range(1, n + 1)],
                      hd.UID(), 1, hd.UID(), 1, 'verif', 'model', '1', 'dev', tile_pixel_array=True,
                      omit_empty_frames=cfg['omit_empty'], **kw)
@@ -589,6 +591,7 @@ def _check_seg(ctx, cfg, reqs, pending):
     base_hist = dict(kind='seg', seg_type=cfg['type'], organisation=str(cfg['org']), omit_empty=cfg['omit_empty'],
                      tile=f'{th}x{tw}', divides=(R % th == 0, C % tw == 0), style=cfg['style'], layout=cfg.get('layout', 'C'),
                      org_spelling=cfg.get('org_spelling', 'str'), remainder=(min(R % th, 2), min(C % tw, 2)),
+                     tile_spelling=cfg.get('tile_spelling', 'tuple') if cfg['tile'] is not None else 'default',
                      entry=cfg.get('entry', 'segread') if cfg['roundtrip'] else 'constructor')
     segs = list(range(1, n + 1))
     mats = [E[s].tolist() for s in segs]
@@ -896,7 +899,7 @@ def _settle(ctx, reqs, pending):
 def _exhaustive_configs(ctx):
     """(R, th) x (C, tw) coverings for the exhaustive region enumeration"""
     if ctx.tier == 'quick':
-        return [dict(R=4, C=5, th=2, tw=3), dict(R=5, C=3, th=3, tw=1)]
+        return [dict(R=4, C=5, th=2, tw=3, pure=False), dict(R=5, C=3, th=3, tw=1, pure=False)]
     # every (matrix size <= 7, tile size <= 6) pair on each axis; tile sizes above the matrix size add nothing new on that axis
     rows = [(R, th) for R in range(1, 8) for th in range(1, 7) if th <= R + 1]
     out = []
@@ -904,7 +907,7 @@ def _exhaustive_configs(ctx):
         r = ctx.rng('exh', rep)
         cols = rows[:]
         r.shuffle(cols)
-        out += [dict(R=a[0], th=a[1], C=b[0], tw=b[1]) for a, b in zip(rows, cols)]
+        out += [dict(R=a[0], th=a[1], C=b[0], tw=b[1], pure=(rep == 0)) for a, b in zip(rows, cols)]
     return out
 
 
@@ -945,15 +948,15 @@ def run(ctx):
             order = list(range(nt))
             r.shuffle(order)
         cfg = dict(idx=100000 + k, R=e['R'], C=e['C'], th=e['th'], tw=e['tw'], full=full, samples=1, bits=8, omit=[], order=order)
-        _check_slide(ctx, cfg, exhaustive_requests(r, e['R'], e['C'], pure_forms=ctx.tier != 'quick'), reqs, pending, exhaustive=True)
+        _check_slide(ctx, cfg, exhaustive_requests(r, e['R'], e['C'], pure_forms=e['pure']), reqs, pending, exhaustive=True)
         ctx.exhaustive.append(f"all regions of {e['R']}x{e['C']} tiled {e['th']}x{e['tw']} "
-                              + ('in 1-based, 0-based, negative and a mixed form ' if ctx.tier != 'quick' else 'in a mixed form ') +
+                              + ('in 1-based, 0-based, negative and a mixed form ' if e['pure'] else 'in a mixed form ') +
                               f"({'TILED_FULL' if full else 'TILED_SPARSE, permuted frames'}) + every per-axis start/end in -n-3..n+3")
         if len(reqs) > 200:
             _settle(ctx, reqs, pending)
             reqs, pending = [], []
     # random slide images
-    for idx in range(_n(ctx, 100, 1500, 5000)):
+    for idx in range(_n(ctx, 100, 1200, 5000)):
         cfg = _slide_config(ctx, idx)
         r = ctx.rng('slidereq', idx)
         # every read decodes each touched frame through pydicom (~1 ms per frame): fewer requests for images with many frames
@@ -966,7 +969,7 @@ def run(ctx):
     for idx in range(_n(ctx, 8, 100, 300)):
         _check_duplicates(ctx, idx, reqs, pending)
     # tiled segmentations
-    for idx in range(_n(ctx, 150, 3000, 9000)):
+    for idx in range(_n(ctx, 150, 2400, 9000)):
         cfg = _seg_config(ctx, idx)
         _check_seg(ctx, cfg, reqs, pending)
         if len(reqs) > 200:
